@@ -137,8 +137,32 @@ fn judge(case: &str, mode: &str, model: &str, imp: &str) -> Option<Failure> {
     let ic = class(imp);
     let crash = matches!(ic.as_str(), "panic" | "abort" | "hang");
     let signature = if crash {
+        // the second token names the entry point for some operations (`c01 line …`); operands
+        // (lists, numbers, hex) are not part of the class, nor are the numbers of a panic message
         let entry = case.split(' ').nth(1).unwrap_or("");
-        format!("crash:{op}:{entry}:{}", strip_lineno(split_oracle(imp).0))
+        let ident = entry.len() <= 24
+            && entry.bytes().next().map_or(false, |b| b.is_ascii_alphabetic())
+            && entry.bytes().all(|b| b.is_ascii_alphanumeric() || b == b'-' || b == b'_')
+            && !is_hex(entry);
+        let entry = if ident { entry } else { "-" };
+        let msg: String = {
+            let m = strip_lineno(split_oracle(imp).0);
+            let mut out = String::new();
+            let mut in_num = false;
+            for c in m.chars() {
+                if c.is_ascii_digit() {
+                    if !in_num {
+                        out.push('#');
+                    }
+                    in_num = true;
+                } else {
+                    in_num = false;
+                    out.push(c);
+                }
+            }
+            out
+        };
+        format!("crash:{op}:{entry}:{msg}")
     } else {
         let two: Vec<&str> = split_oracle(imp).0.split(' ').take(2).collect();
         format!("corr:{op}:{}/{}", class(model), if ic.starts_with("err ") || ic == "ok" { ic.clone() } else { two.join(" ") })
